@@ -104,3 +104,69 @@ func TestVerifC02CounterOff(t *testing.T) {
 		vstats.Case(fmt.Sprintf("populated=%v mode=%q ops=%v", populated, modeContent, trace), incs > 0, fmt.Sprintf("populated:%v", populated))
 	})
 }
+
+// TestVerifC02OffAtRotation: telemetry is switched off while a process is
+// running. The next rotation must honour it: no new counter file is created
+// once the mode is off (increments stay in memory).
+func TestVerifC02OffAtRotation(t *testing.T) {
+	defer vstats.Flush()
+	base := t.TempDir()
+	n := 0
+	rapid.Check(t, func(t *rapid.T) {
+		CrashOnBugs = false
+		n++
+		dir := filepath.Join(base, "r"+strconv.Itoa(n))
+		defer os.RemoveAll(dir)
+		telemetry.Default = telemetry.NewDir(dir)
+		now := vgen.StartTime(t)
+		CounterTime = func() time.Time { return now }
+		os.MkdirAll(filepath.Join(dir, "local"), 0777)
+		os.WriteFile(filepath.Join(dir, "local", "weekends"), []byte("2\n"), 0666)
+		os.WriteFile(filepath.Join(dir, "mode"), []byte(rapid.SampledFrom([]string{"on 2020-01-01", "local", "on"}).Draw(t, "startMode")), 0666)
+		f := &file{}
+		defer func() {
+			if m := f.current.Load(); m != nil {
+				m.close()
+			}
+		}()
+		f.rotate1()
+		if f.current.Load() == nil {
+			t.Fatalf("harness: open failed: %v", f.err)
+		}
+		c := &Counter{name: "a", file: f}
+		var trace []string
+		// some weeks with telemetry enabled
+		for i, k := 0, rapid.IntRange(0, 3).Draw(t, "weeksOn"); i < k; i++ {
+			c.Add(1)
+			now = now.Add(time.Duration(rapid.IntRange(7, 9).Draw(t, "advanceDays")) * 24 * time.Hour)
+			f.rotate1()
+			trace = append(trace, "rotate(on)")
+		}
+		c.Add(1)
+		// consent withdrawn
+		os.WriteFile(filepath.Join(dir, "mode"), []byte(rapid.SampledFrom([]string{"off", "off 2024-05-05", " off\n"}).Draw(t, "offContent")), 0666)
+		names := func() map[string]bool {
+			m := map[string]bool{}
+			ents, _ := os.ReadDir(filepath.Join(dir, "local"))
+			for _, e := range ents {
+				if filepath.Ext(e.Name()) == ".count" {
+					m[e.Name()] = true
+				}
+			}
+			return m
+		}
+		before := names()
+		for i, k := 0, rapid.IntRange(1, 3).Draw(t, "weeksOff"); i < k; i++ {
+			now = now.Add(time.Duration(rapid.IntRange(7, 9).Draw(t, "advanceDays")) * 24 * time.Hour)
+			f.rotate1()
+			c.Add(int64(rapid.IntRange(1, 5).Draw(t, "n")))
+			trace = append(trace, "rotate(off)+add")
+			for name := range names() {
+				if !before[name] {
+					t.Fatalf("mode was switched off, but the rotation at %s created the counter file %s (history %v)", now.Format("2006-01-02"), name, trace)
+				}
+			}
+		}
+		vstats.Case(fmt.Sprintf("start=%s history=%v", now.Format("2006-01-02"), trace), true, "off-at-rotation")
+	})
+}
